@@ -2,5 +2,5 @@
 EXTENDS Session
 PT_A == << [kind |-> "plain", size |-> 2], [kind |-> "omen", size |-> 3], [kind |-> "plain", size |-> 1] >>
 PT_B == << [kind |-> "plain", size |-> 1], [kind |-> "omen", size |-> 2], [kind |-> "plain", size |-> 1], [kind |-> "omen", size |-> 2] >>
-MCScripts == { <<"block">>, <<"eof">>, <<"q", "block">>, <<"enter", "block">>, <<"enter", "q", "block">>, <<"h", "eof">> }
+MCScripts == { <<"block">>, <<"EOF">>, <<"q", "block">>, <<"", "block">>, <<"", "q", "block">>, <<"h", "EOF">> }
 =============================================================================
